@@ -525,6 +525,21 @@ func (self *Interpreter) memberExpression(node ast.AnalyzedMemberExpression) (*v
 		return nil, i
 	}
 
+	// `o->key` reads a key of an any-object as an option, `o~>key` unwraps it (like the VM's `Member_Anyobj`)
+	if node.Operator != pAst.DotMemberOperator {
+		field, found := (*base).(value.ValueAnyObject).FieldsInternal[node.Member.Ident()]
+		if !found {
+			if node.Operator == pAst.TildeArrowMemberOperator {
+				return nil, value.NewThrowInterrupt(node.Span(), "Called 'unwrap' on a 'null' option value")
+			}
+			return value.NewNoneOption(), nil
+		}
+		if node.Operator == pAst.TildeArrowMemberOperator {
+			return field, nil
+		}
+		return value.NewValueOption(field), nil
+	}
+
 	fields, i := (*base).Fields()
 	if i != nil {
 		return nil, i
